@@ -51,3 +51,22 @@ Print Assumptions C06_merge_is_product_single.
 Print Assumptions C06_gauge.
 Print Assumptions C06_gauge_even.
 Print Assumptions C06_element_is_sequence.
+
+(* the leaf of the decomposition: left_and_right_angles reads a degree-1 element g = R(a) w R(b) at w = 1 and w = i; the two numbers whose
+   arguments it takes are e^{i(a+b)} and i e^{i(a-b)} — in any commutative ring with i*i = -1, phases given by their (cos, sin) pairs *)
+From PyqspV Require Import Theory.LeafT.
+Theorem C06_leaf_readout (K : CRing) (i : K) (ii : kmul i i = kopp k1) (csa csb : K * K) r :
+  la_from_angles (@OpsK K) [csa; csb] = Some r ->
+  kadd (evx K k1 k1 (la_I r)) (kmul i (evx K k1 k1 (la_X r)))
+    = kadd (ksub (kmul (fst csa) (fst csb)) (kmul (snd csa) (snd csb))) (kmul i (kadd (kmul (snd csa) (fst csb)) (kmul (fst csa) (snd csb)))) /\
+  ksub (evx K i (kopp i) (la_I r)) (kmul i (evx K i (kopp i) (la_X r)))
+    = kmul i (kadd (kadd (kmul (fst csa) (fst csb)) (kmul (snd csa) (snd csb))) (kmul i (ksub (kmul (snd csa) (fst csb)) (kmul (fst csa) (snd csb))))).
+Proof. exact (leaf_readout K i ii csa csb r). Qed.
+Print Assumptions C06_leaf_readout.
+
+Theorem C06_leaf_readout_angles (a b : R) r :
+  la_from_angles OpsC [(RtoC (cos a), RtoC (sin a)); (RtoC (cos b), RtoC (sin b))] = Some r ->
+  Cplus (evx CR (RtoC 1) (RtoC 1) (la_I r)) (Cmult Ci (evx CR (RtoC 1) (RtoC 1) (la_X r))) = (cos (a + b), sin (a + b))%R /\
+  Cminus (evx CR Ci (Copp Ci) (la_I r)) (Cmult Ci (evx CR Ci (Copp Ci) (la_X r))) = Cmult Ci (cos (a - b), sin (a - b))%R.
+Proof. exact (leaf_readout_angles a b r). Qed.
+Print Assumptions C06_leaf_readout_angles.
